@@ -17,7 +17,7 @@ MemfdOps == {"set_mem_table", "add_mem_region", "set_inflight_fd", "set_log_base
              "set_log_fd", "set_backend_request_fd"}
 
 JudgedMutations == {"code+1", "code=0", "code=999", "flag-reply", "ver0", "ver2", "resv", "size-1",
-                    "size_field>max", "body_short", "fds+1", "fds+2", "fds-1", "nack", "body_invalid",
+                    "size_field>max", "body_short", "fds+1", "fds+2", "fds-1", "fds+1_seg", "fds_late", "nack", "body_invalid",
                     "config_offset", "random", "silent"}
 
 Prefix(s, n) == SubSeq(s, 1, n)
